@@ -20,11 +20,20 @@ META = {
             "buffer), TLC-simulated behaviours and seeded random programs over the QoS grid are executed on "
             "ipc::Service and local::Service with u64 and [u8] payloads, and every recorded send/receive/has_samples "
             "result (recipients, blocked receivers, publisher, sample id, canary) must be explained by the "
-            "specification, with the property invariants evaluated on every state of the explained trace.",
-    "note": "Sequential histories only (one thread drives all ports; concurrent access to the queues is C03). The "
-            "retry strategy is exercised as retry-then-abort through the unable-to-deliver handler. Instances are "
-            "bounded (<= 2 live publishers/subscribers in the model, <= 3 in executions, <= 4 loans per model run); "
-            "the expired-connection buffer is configured large enough that its documented overflow loss cannot occur. "
+            "specification, with the property invariants evaluated on every state of the explained trace. "
+            "Strengthened: (1) connection faults as environment actions of the specification and the driver (data segment of a "
+            "live publisher removed from the system; sender side of a connection occupied by a foreign sender) with ports "
+            "carrying degradation handlers Warn / Ignore / DegradeAndFail - the faulty pair delivers nothing, every other "
+            "pair must behave as without the fault, the call returns ConnectionFailure iff the handler says fail; "
+            "(2) the expired-connection buffer is modelled (sizes 1..3): only a connection without held samples may be "
+            "sacrificed, its undelivered samples are the documented loss; (3) send exists in a split form (SendBegin / "
+            "Deliver / BpCall / BpRet / SendEnd) that explains calls made from inside the unable-to-deliver handler; "
+            "(4) publisher thread || subscriber thread on one connection under the deterministic scheduler, every "
+            "execution validated as the set of its linearizations.",
+    "note": "Sequential histories plus handler re-entrancy plus 1 publisher || 1 subscriber under the scheduler "
+            "(DiscardData strategy, preemption bound 1 quick / 2 thorough; queue-level concurrency is C03). Faults are "
+            "permanent within a run (no healing); receiver-side occupation of a connection is not injected. Instances are "
+            "bounded (<= 2 live publishers/subscribers in the model, <= 3 in executions, <= 4 loans per model run). "
             "The specification follows the documentation; the code's loss of samples when a publisher is dropped "
             "before a registered subscriber attached to their connection is accepted only as a tagged known-defect "
             "shape and reported with the signature pubsub:sample-lost:publisher-dropped-before-subscriber-attached "
